@@ -108,7 +108,9 @@ func (set *SortedSet) GetRandom(count int) []MemberParam {
 
 	members := set.GetAll()
 
-	if internal.AbsInt(count) >= len(members) {
+	// A positive count asks for distinct members: at most the whole set.
+	// A negative count asks for exactly |count| members, repeats allowed.
+	if len(members) == 0 || (count > 0 && count >= len(members)) {
 		return members
 	}
 
